@@ -38,8 +38,12 @@ def sync_coq_mirror():
         return
     os.makedirs(COQ, exist_ok=True)
     # sources and compiled files (so that unchanged proofs are not rebuilt), but never the other tree's Gen
-    subprocess.run(["rsync", "-a", "--delete", "--exclude", "Gen/", "--exclude", "extracted/", "--exclude", "Makefile*",
-                    "--exclude", "_CoqProject", "--exclude", ".Makefile.d", COQ_SRC + "/", COQ + "/"], check=True)
+    r = subprocess.run(["rsync", "-a", "--delete", "--exclude", "Gen/", "--exclude", "extracted/", "--exclude", "Makefile*",
+                        "--exclude", "_CoqProject", "--exclude", ".Makefile.d", "--exclude", "*.aux", "--exclude", "*.glob",
+                        "--exclude", "*.vos", "--exclude", "*.vok", "--exclude", ".*.cache",
+                        COQ_SRC + "/", COQ + "/"], stdout=subprocess.PIPE, stderr=subprocess.PIPE)
+    if r.returncode not in (0, 23, 24):   # 23/24: a file changed or vanished under a concurrent build; make rebuilds what is stale
+        raise RuntimeError("rsync of the Coq tree failed: " + r.stderr.decode("utf8", "replace")[-500:])
 OUT = os.path.join(ROOT, "out")          # replay files, logs (git-ignored)
 EVID = os.path.join(ROOT, "evidence")
 GUARD = "uazu_stakker_verif"
